@@ -8,6 +8,7 @@ mod sx;
 mod c01;
 mod c02;
 mod c05;
+mod c06;
 mod c07;
 mod gen_schema;
 mod sx_schema;
@@ -56,6 +57,7 @@ fn main() {
                 "c01" => c01::run(&args, &mut out),
                 "c02" => c02::run(&args, &mut out),
                 "c05" => c05::run(&args, &mut out),
+                "c06" => c06::run(&args, &mut out),
                 "c07" => c07::run(&args, &mut out),
                 "c11" => c11::run(&args, &mut out),
                 "c04" => c04::run(&args, &mut out),
